@@ -542,8 +542,10 @@ def main(module, argv=None):
         except Exception as e:
             print('evidence does not validate: %r' % (e,))
             return 2 if rc == 0 else rc
-        os.makedirs(os.path.join(VERIF, 'evidence'), exist_ok=True)
-        with open(os.path.join(VERIF, 'evidence', prop + '.json'), 'w') as f:
+        # runs against another tree (LARK_REPO: seeded changes, mutants, old revisions) must not replace the evidence of /repo itself
+        evdir = os.path.join(VERIF, 'evidence') if os.path.realpath(REPO) == os.path.realpath('/repo') else os.path.join(VERIF, 'out', 'evidence-other-tree')
+        os.makedirs(evdir, exist_ok=True)
+        with open(os.path.join(evdir, prop + '.json'), 'w') as f:
             json.dump(ev, f, indent=1, sort_keys=True, default=repr)
     print('%s tier=%s seed=%d evaluations=%d distinct_nontrivial=%d excluded=%s wall=%.1fs rc=%d' % (
         prop, tier, seed, total['evaluations'], len(total['nontriv']), dict(total['excluded']), wall, rc))
